@@ -73,8 +73,9 @@ pub(crate) fn rewrite_string<'a>(
 
     // Strip line breaks, with the whitespaces that a line continuation skips in a string literal
     // (blank, tab, line feed, carriage return: not the other ASCII or Unicode whitespaces).
+    // Line continuations that follow one another are one match: a second pass finds nothing more.
     // With this regex applied, all remaining whitespaces are significant
-    let strip_line_breaks_re = Regex::new(r"([^\\](\\\\)*)\\[\n\r][ \t\n\r]*").unwrap();
+    let strip_line_breaks_re = Regex::new(r"([^\\](\\\\)*)(\\[\n\r][ \t\n\r]*)+").unwrap();
     let stripped_str = strip_line_breaks_re.replace_all(orig, "$1");
 
     let graphemes = UnicodeSegmentation::graphemes(&*stripped_str, false).collect::<Vec<&str>>();
